@@ -21,7 +21,7 @@ from fractions import Fraction
 
 OPS = {
     "hist": {}, "histf": {"spec_only": True}, "track_direct": {}, "track_thread": {}, "track_real": {},
-    "sched": {"spec_only": True}, "lock_facts": {},
+    "sched": {"spec_only": True}, "lock_facts": {}, "track_abandon": {},
 }
 HERE = os.path.dirname(os.path.abspath(__file__))
 
@@ -129,6 +129,10 @@ def generate(rng, tier):
     for _ in range(10 * k):
         existing, xs, total, as_gen = gen_track(rng)
         cases.append(("track_real", [existing, xs, total, [], as_gen]))
+    for _ in range(40 * k):
+        existing, xs, total, as_gen = gen_track(rng)
+        if xs:
+            cases.append(("track_abandon", [existing, xs, total, rng.randint(1, len(xs)), rng.randint(0, 1), as_gen]))
     for _ in range(300 * k):
         nthreads = rng.choice([2, 2, 3, 4])
         nonneg = rng.random() < 0.8
@@ -149,6 +153,8 @@ def model_case(op, arg):
         return op, arg[:3]
     if op in ("track_thread", "track_real"):
         return "track_thread", arg[:4]
+    if op == "track_abandon":
+        return op, arg[:5]
     return op, arg
 
 
@@ -445,6 +451,16 @@ def impl(op, arg):
         return run_track_thread(arg, True)
     if op == "sched":
         return run_sched(arg)
+    if op == "track_abandon":
+        # the consumer takes k elements and abandons the loop (generator closed at its yield)
+        existing, xs, total, k, path, as_gen = arg
+        p, tid, kw = _track_prepare(existing, xs, total, bool(path))
+        if path:
+            kw["update_period"] = 0.001
+        g = p.track(_sequence(xs, as_gen), **kw)
+        out = [next(g) for _ in range(k)]
+        g.close()
+        return _track_out(p, tid if tid is not None else 0, out)
     if op == "lock_facts":
         # what the proofs need of the regenerated event lists: advance well-formed and stamping its
         # sample under the lock; every other mutator guarded; update / reset read the clock inside
